@@ -478,6 +478,18 @@ fn bdd_api_case(ctx: &mut Ctx, rng: &mut Rng) {
                     ctx.violation("ffi.weights.poly", "polynomial weight does not round-trip through the C interface",
                         json!({"var": v, "len": len, "copied": k, "expected_len": want.used(), "input": info}));
                 }
+                // a caller's buffer may be shorter than the polynomial: exactly min(len, max_len)
+                // coefficients are written, nothing behind them is touched (sentinels)
+                let short = rng.below(len + 2);
+                let sentinel = f64::from_bits(0x7ff8_dead_beef_0001);
+                let mut sb = vec![sentinel; short + 6];
+                let k2 = polynomial_get_coeffs(ptr, sb.as_mut_ptr(), short);
+                ctx.count("c_short_buffer_reads", 1);
+                let intact = sb[usize::min(short, len)..].iter().all(|x| x.to_bits() == sentinel.to_bits());
+                if k2 != usize::min(len, short) || !intact || !(0..k2).all(|i| crate::exact::f64_is(sb[i], want.0[i])) {
+                    ctx.violation("ffi.weights.poly.short_buffer", "polynomial_get_coeffs with a buffer shorter than the polynomial: wrong count, wrong coefficients or a write behind max_len",
+                        json!({"var": v, "len": len, "max_len": short, "copied": k2, "memory_behind_untouched": intact}));
+                }
                 destroy_polynomial(ptr);
             }
             ctx.count("c_weight_roundtrips", 3);
